@@ -522,7 +522,9 @@ pub fn run_ops(w: &mut World, ops: &[Op], start: usize, ctx: &mut Ctx) {
                     ctx.out.stats.boundary_checks += 1;
                     let writes = w.lib.disk.writes_in_call();
                     if writes != 0 {
-                        ctx.report("no-effect.seam-writes", op.kind(), format!("step {} {}: refused with {:?} but performed {} write call(s) on the underlying file", i, op.to_json(), k, writes), i, false);
+                        // the property speaks of the BYTES: write calls that leave every byte as
+                        // it was are measured, not judged
+                        ctx.out.stats.probe("refused_call_made_write_calls");
                     }
                     if w.lib.disk.image_hash() != pre_hash {
                         ctx.report("no-effect.image-changed", op.kind(), format!("step {} {}: refused with {:?} but the byte image changed", i, op.to_json(), k), i, false);
